@@ -63,6 +63,14 @@ def run(tier, seed):
     multi = [("6 hours", "45 min"), ("1 km", "250 m"), ("10 kg", "2 lb"), ("90 deg", "0.5 rad"), ("1 MiB", "512 B")]
     for a, b in multi:
         rows.append({"id": len(rows), "shown": True, "exprs": ["%s -> %s" % (a, b), "%s -> (1 %s)" % (a, b.split()[1])]})
+    chains = []
+    for a, b in multi:
+        unit = b.split()[1]
+        for last in (unit, "(1 %s)" % unit):
+            chains.append((a, b, last))
+        chains.append(("0 " + a.split()[1], b, unit))
+    for a, b, last in chains:
+        rows.append({"id": len(rows), "shown": True, "exprs": ["(%s -> %s) -> %s" % (a, b, last), "%s -> %s" % (a, last)]})
     inp, out = os.path.join(d, "cases.ndjson"), os.path.join(d, "out.ndjson")
     nv.write_ndjson(inp, rows)
     nv.harness("nv-units", ["eval", "--cases", inp, "--out", out])
@@ -91,7 +99,20 @@ def run(tier, seed):
             if o[2]["outcome"] != "ok" or o[3]["outcome"] != "ok" or not uc.rel_close(float(o[2]["raw"]["value"]), float(o[3]["raw"]["value"]), REL):
                 rep.violation({"kind": "via-intermediate-differs", "case": label + " -> " + c["r"],
                                "via": o[2].get("raw", {}).get("value"), "direct": o[3].get("raw", {}).get("value")})
-    for (a, b), r in zip(multi, results[len(cases):]):
+    # chains: the display target belongs to the last conversion only (Quantity.tla ChainDisplayTarget)
+    chain_results = results[len(cases) + len(multi):]
+    for (a, b, last), r in zip(chains, chain_results):
+        rep.add("evaluations", 1)
+        o = r["results"]
+        if any(x["outcome"] != "ok" for x in o):
+            rep.violation({"kind": "conversion-failed", "case": "(%s -> %s) -> %s" % (a, b, last)})
+            continue
+        chained, direct = o[0]["shown"]["text"], o[1]["shown"]["text"]
+        if "×" in chained or chained != direct:
+            rep.violation({"kind": "stale-multiple-of-target-display", "case": "(%s -> %s) -> %s" % (a, b, last),
+                           "displayed": chained, "direct_conversion_displays": direct})
+        nontrivial += 1
+    for (a, b), r in zip(multi, results[len(cases):len(cases) + len(multi)]):
         rep.add("evaluations", 1)
         o = r["results"]
         if o[0]["outcome"] != "ok" or o[1]["outcome"] != "ok":
